@@ -279,8 +279,8 @@ type cache struct {
 }
 
 func (h *DNSHandler) getMDNSCache(mac net.HardwareAddr, id uint16) (c cache, found bool) {
-	h.mutex.RLock()
-	defer h.mutex.RUnlock()
+	h.mutex.Lock() // an expired entry is deleted below: a write needs the write lock
+	defer h.mutex.Unlock()
 	key := make([]byte, 6+2)
 	copy(key, mac)
 	key[6] = byte(id >> 8)
